@@ -87,9 +87,16 @@ class Run:
         if rc != 0 or marker not in out:
             raise MachineryError("specification self-test %s failed:\n%s" % (module, tail(out)))
 
-    def design_check(self, module, cfg=None, workers=8, xmx="8g", env=None, expect=None, exhaustive=True, timeout=3600):
-        """(D): TLC explores the specification alone; any failure here is a machinery error."""
+    def design_check(self, module, cfg=None, workers=8, xmx="8g", env=None, expect=None, exhaustive=True, timeout=3600, expect_violation=None):
+        """(D): TLC explores the specification alone; any failure here is a machinery error.
+        expect_violation=<invariant>: a deliberately broken variant of the design; TLC must FIND the violation."""
         rc, out, gen, dist = self.tlc(module, cfg=cfg, workers=workers, xmx=xmx, env=env, timeout=timeout)
+        if expect_violation:
+            if "Invariant %s is violated" % expect_violation not in out:
+                raise MachineryError("design check %s (%s): expected TLC to find a violation of %s:\n%s" % (module, cfg, expect_violation, tail(out)))
+            self.design.append({"module": module, "cfg": cfg, "expected_violation_found": expect_violation, "distinct": dist})
+            log("design %s (%s): violation of %s found as expected" % (module, cfg, expect_violation))
+            return
         if rc != 0 or "No error has been found" not in out:
             raise MachineryError("design check %s failed (the MODEL violates its own invariant or TLC errored):\n%s" % (module, tail(out)))
         if dist < 1:
@@ -232,7 +239,7 @@ class Run:
             path = os.path.join(rdir, "%s-%d.json" % (self.prop, shown))
             json.dump({"property": self.prop, "family": gk[0], "clauses": list(gk[2]), "count": len(evs), "seed": self.seed,
                        "tier": self.tier, "event": evs[0], "more": evs[1:4]}, open(path, "w"), indent=1)
-            print("VIOLATION property=%s replay=%s clauses=%s count=%d event=%s" % (self.prop, path, ",".join(gk[2]), len(evs),
+            print("%s property=%s replay=%s clauses=%s count=%d event=%s" % ("EXT-FAIL" if self.prop == "EXT" else "VIOLATION", self.prop, path, ",".join(gk[2]), len(evs),
                                                                                       json.dumps(shorten(evs[0]))[:600]), flush=True)
             shown += 1
             if shown >= 25:
@@ -253,8 +260,9 @@ class Run:
         cov.update(self.coverage_extra)
         ev = {"property_id": self.prop, "tier": self.tier, "seed": self.seed, "level": "model_checking", "coverage": cov,
               "assumptions": list(assumptions) + self.notes, "wall_s": round(time.time() - self.t0, 1), "violations": len(violations)}
-        os.makedirs(os.path.join(VERIF, "evidence"), exist_ok=True)
-        json.dump(ev, open(os.path.join(VERIF, "evidence", self.prop + ".json"), "w"), indent=1)
+        edir = os.path.join(VERIF, "evidence", "extended") if self.prop == "EXT" else os.path.join(VERIF, "evidence")
+        os.makedirs(edir, exist_ok=True)
+        json.dump(ev, open(os.path.join(edir, self.prop + ".json"), "w"), indent=1)
         log("%s %s seed=%d: %d events, %d states, %d violations, %d known, %.0fs" % (
             self.prop, self.tier, self.seed, self.events, self.states, len(violations), len(knowns), time.time() - self.t0))
         return 1 if violations else 0
